@@ -774,23 +774,92 @@ fn classify(o: &Opts, refs: &Refs, h: &sam::Header, recs: &[RecordBuf]) -> V {
             o_cur = o2;
         }
     }
-    // 2. record classes, removed cumulatively
+    // 2. record classes, *repaired in place* cumulatively (the slice layout is kept: removing a
+    //    record would move every later record to another slice and change unrelated behaviour)
+    let lens: Vec<usize> = h
+        .reference_sequences()
+        .keys()
+        .map(|n| refs.iter().find(|(m, _)| m.as_bytes() == &n[..]).map(|x| x.1.len()).unwrap_or(0))
+        .collect();
     let past_end = has_past_end_unmapped(refs, h);
-    let classes: Vec<(&str, Box<dyn Fn(&RecordBuf) -> bool + '_>)> = vec![
-        ("cram-mapped-read-missing-qualities-panic", Box::new(|r: &RecordBuf| is_mapped_missing_quals(r) && tag0 == "write-panic")),
-        ("cram-mapped-read-missing-bases-panic", Box::new(|r: &RecordBuf| is_mapped_missing_bases(r) && tag0 == "write-panic")),
-        ("cram-placed-unmapped-read-past-reference-end-panic", Box::new(|r: &RecordBuf| past_end(r) && tag0 == "write-panic")),
-        ("cram-missing-qualities-stream-desync", Box::new(is_missing_quals)),
-        ("cram-missing-name-sentinel", Box::new(|r: &RecordBuf| r.name().is_none())),
-        ("cram-empty-sequence-external-block-dropped", Box::new(|r: &RecordBuf| r.sequence().is_empty())),
+    let fill_quals = |r: &mut RecordBuf| {
+        let n = r.sequence().len();
+        *r.quality_scores_mut() = QualityScores::from(vec![40u8; n]);
+    };
+    type Pred<'a> = Box<dyn Fn(&RecordBuf) -> bool + 'a>;
+    type Repair<'a> = Box<dyn Fn(usize, &mut RecordBuf) + 'a>;
+    let classes: Vec<(&str, Pred, Repair)> = vec![
+        (
+            "cram-mapped-read-missing-qualities-panic",
+            Box::new(|r: &RecordBuf| is_mapped_missing_quals(r) && tag0 == "write-panic"),
+            Box::new(|_, r: &mut RecordBuf| fill_quals(r)),
+        ),
+        (
+            "cram-mapped-read-missing-bases-panic",
+            Box::new(|r: &RecordBuf| is_mapped_missing_bases(r) && tag0 == "write-panic"),
+            Box::new(|_, r: &mut RecordBuf| {
+                let n: usize = r.cigar().as_ref().iter().filter(|op| op.kind().consumes_read()).map(|op| op.len()).sum();
+                *r.sequence_mut() = Sequence::from(vec![b'N'; n]);
+                fill_quals(r);
+            }),
+        ),
+        (
+            "cram-placed-unmapped-read-past-reference-end-panic",
+            Box::new(|r: &RecordBuf| past_end(r) && tag0 == "write-panic"),
+            Box::new(|_, r: &mut RecordBuf| {
+                // shorten the read so that it ends at the last reference base
+                let id = r.reference_sequence_id().unwrap();
+                let p = usize::from(r.alignment_start().unwrap());
+                let keep = (lens[id] + 1).saturating_sub(p).max(1);
+                let seq: Vec<u8> = r.sequence().as_ref().iter().copied().take(keep).collect();
+                let q: Vec<u8> = r.quality_scores().as_ref().iter().copied().take(keep).collect();
+                *r.sequence_mut() = Sequence::from(seq);
+                *r.quality_scores_mut() = QualityScores::from(q);
+            }),
+        ),
+        (
+            "cram-placed-record-without-bases-span-underflow",
+            Box::new(|r: &RecordBuf| {
+                (tag0 == "write-panic" || tag0 == "walk-slice-context")
+                    && r.reference_sequence_id().is_some()
+                    && r.alignment_start().is_some()
+                    && r.sequence().is_empty()
+                    && ref_span_of(r) == 0
+            }),
+            Box::new(|_, r: &mut RecordBuf| {
+                *r.sequence_mut() = Sequence::from(vec![b'N']);
+                fill_quals(r);
+            }),
+        ),
+        ("cram-missing-qualities-stream-desync", Box::new(is_missing_quals), Box::new(|_, r: &mut RecordBuf| fill_quals(r))),
+        (
+            "cram-missing-name-sentinel",
+            Box::new(|r: &RecordBuf| r.name().is_none()),
+            Box::new(|i, r: &mut RecordBuf| *r.name_mut() = Some(format!("nv.unnamed.{i}").into())),
+        ),
+        (
+            "cram-empty-sequence-external-block-dropped",
+            Box::new(|r: &RecordBuf| r.sequence().is_empty()),
+            Box::new(|_, r: &mut RecordBuf| {
+                if r.flags().is_unmapped() {
+                    *r.sequence_mut() = Sequence::from(vec![b'N']);
+                    fill_quals(r);
+                }
+            }),
+        ),
     ];
     let mut cur: Vec<RecordBuf> = recs.to_vec();
     let mut vcur_key = plain(&o_cur, refs, h, &cur).key();
-    for (tag, pred) in &classes {
+    for (tag, pred, repair) in &classes {
         if !cur.iter().any(|r| pred(r)) {
             continue;
         }
-        let next: Vec<RecordBuf> = cur.iter().filter(|r| !pred(r)).cloned().collect();
+        let mut next = cur.clone();
+        for (i, r) in next.iter_mut().enumerate() {
+            if pred(r) {
+                repair(i, r);
+            }
+        }
         let vn = plain(&o_cur, refs, h, &next);
         if vn.key() != vcur_key {
             return V::Fail((tag.to_string(), detail0.clone()));
